@@ -173,7 +173,10 @@ def _ninja(fl, subdir, lines, target, what):
     os.makedirs(hd, exist_ok=True)
     nf = os.path.join(hd, "build.ninja")
     txt = "\n".join(lines) + "\n"
-    with FileLock(os.path.join(BUILD_ROOT, "%s.h_%s.lock" % (fl, subdir))):
+    # the flavour lock is held too: a harness must not be linked while another
+    # check re-links the libraries of the same flavour
+    with FileLock(os.path.join(BUILD_ROOT, "%s.h_%s.lock" % (fl, subdir))), \
+            FileLock(os.path.join(BUILD_ROOT, fl + ".lock")):
         if not os.path.exists(nf) or open(nf).read() != txt:
             open(nf, "w").write(txt)
         t0 = time.time()
